@@ -81,10 +81,27 @@ func (c *compiler) compile() (string, error) {
 			return "", fmt.Errorf("line %d: %w", s.T().LineNumber, err)
 		}
 
-		c.write(bb, res)
+		if err := c.safeWrite(bb, res); err != nil {
+			return "", fmt.Errorf("line %d: %w", stmt.T().LineNumber, err)
+		}
 	}
 
 	return bb.String(), nil
+}
+
+// safeWrite is write for values that print themselves. A String, HTML or
+// Interface method that panics - one promoted through an embedded pointer
+// that is nil, say - fails the render with an error, the way a panicking
+// helper does, instead of crashing.
+func (c *compiler) safeWrite(bb *strings.Builder, i interface{}) (err error) {
+	defer func() {
+		if r := recover(); r != nil {
+			err = fmt.Errorf("could not print a value of type %T: %v", i, r)
+		}
+	}()
+
+	c.write(bb, i)
+	return nil
 }
 
 func (c *compiler) write(bb *strings.Builder, i interface{}) {
